@@ -99,10 +99,10 @@ def get_rankings_from_file(file: str) -> List[List[Set[Element]]]:
         lines = file_rankings.read().replace("\\\n", "")
     try:
         res = [parse_ranking_with_ties_of_int(line)
-               for line in lines.split("\n") if len(line) > 2 and line[0] not in ignore_lines]
+               for line in lines.split("\n") if len(line) >= 2 and line[0] not in ignore_lines]
     except ValueError:
         res = [parse_ranking_with_ties_of_str(line)
-               for line in lines.split("\n") if len(line) > 2 and line[0] not in ignore_lines]
+               for line in lines.split("\n") if len(line) >= 2 and line[0] not in ignore_lines]
     return res
 
 
